@@ -8,6 +8,7 @@ import FemtoVerif.Driver.C14
 import FemtoVerif.Driver.C04
 import FemtoVerif.Driver.C10
 import FemtoVerif.Driver.C16
+import FemtoVerif.Driver.C19
 open Lean
 
 namespace Femto.Driver
@@ -33,6 +34,9 @@ def dispatch (op : String) (j : Json) : Except String Json :=
   | "c04.sbend" => C04.sbend j
   | "c10.addpath" => C10.addpath j
   | "c16.history" => C16.history j
+  | "c19.paths" => C19.paths j
+  | "c19.merge" => C19.merge j
+  | "c19.filter" => C19.filter j
   | _ => .error s!"unknown op {op}"
 
 def handleLine (line : String) : String :=
